@@ -462,6 +462,12 @@ def h_open_fake(sym):
             assert second is not None, 'second open_links did not raise'
             for i in range(n):
                 assert len(_positions(env.log, 'open', i)) == 1, 'a link was opened twice'
+                # the refused call is not a failed link opening: nothing is closed, the swarm stays open (and stays refused)
+                assert not _positions(env.log, 'close', i) and env.members[i].opened, ('refused second open closed a link', i)
+            third = _open(swarm, ctx)
+            assert third is not None, 'third open_links accepted after the refused second one'
+            for i in range(n):
+                assert len(_positions(env.log, 'open', i)) == 1, 'a link was opened twice'
             sym.goal('second-open-refused')
     finally:
         env.restore()
@@ -551,6 +557,12 @@ def h_open_scf(sym):
             sym.goal('opened')
             second = _open(swarm, ctx)
             assert second is not None, 'second open_links did not raise'
+            for i in range(n):
+                assert len(_positions(env.log, 'cf.open', i)) == 1, 'a link was opened twice'
+                assert not _positions(env.log, 'cf.close', i) and cfs[i].link_open and env.members[i].is_link_open(), \
+                    ('refused second open closed a link', i)
+            third = _open(swarm, ctx)
+            assert third is not None, 'third open_links accepted after the refused second one'
             for i in range(n):
                 assert len(_positions(env.log, 'cf.open', i)) == 1, 'a link was opened twice'
             sym.goal('second-open-refused')
